@@ -344,6 +344,11 @@ func (g *Graph) Exit(b *cfg.Block) ExitKind {
 	if len(b.Succs) != 0 || !b.Live {
 		return NotExit
 	}
+	if b.Kind == cfg.KindSelectAfterCase {
+		// the "no case ready" continuation of a select without a default arm: such a select blocks
+		// until one arm is taken, so this block is never executed
+		return NotExit
+	}
 	if len(b.Nodes) > 0 {
 		switch last := b.Nodes[len(b.Nodes)-1].(type) {
 		case *ast.ReturnStmt:
@@ -577,4 +582,22 @@ func (g *Graph) AtomOf(n ast.Node) ast.Node {
 		return nil
 	}
 	return g.Atoms[p.Block][p.Idx]
+}
+
+// Idom returns the immediate dominator block index of block b (-1 if none).
+func (g *Graph) Idom(b int) int {
+	if b <= 0 || b >= len(g.idom) {
+		return -1
+	}
+	return g.idom[b]
+}
+
+// BlockOfStmt returns the block created for statement s with the given kind (nil if none).
+func (g *Graph) BlockOfStmt(s ast.Stmt, kind cfg.BlockKind) *cfg.Block {
+	for _, b := range g.CFG.Blocks {
+		if b.Stmt == s && b.Kind == kind {
+			return b
+		}
+	}
+	return nil
 }
